@@ -67,6 +67,10 @@ OTHER = {"2": "AV:N/AC:L/Au:N/C:P/I:P/A:C", "3": "CVSS:3.1/AV:N/AC:L/PR:N/UI:N/S
          "4": "CVSS:4.0/AV:N/AC:L/AT:N/PR:N/UI:N/VC:H/VI:L/VA:N/SC:N/SI:N/SA:N"}
 
 
+class CopyBehavesDifferently(Exception):
+    pass
+
+
 def accessor(obj, ver, name):
     if name == "scores":
         return [repr(x) for x in obj.scores()]
@@ -103,9 +107,30 @@ def accessor(obj, ver, name):
         for o in operands:
             res += [bool(obj == o), bool(o == obj), bool(obj != o), bool(o != obj)]
         res.append(sum(1 for o in operands if isinstance(o, tuple(CLS.values())) and o in [obj]))
+        # a value behaves the same after being copied (copy, deepcopy, pickle round trips); where it cannot be copied nothing is claimed
+        import pickle
+        mine = dig(observe(obj, ver))
+        for how in (copy.copy, copy.deepcopy, lambda o: pickle.loads(pickle.dumps(o)), lambda o: pickle.loads(pickle.dumps(o, 2))):
+            try:
+                twin = how(obj)
+            except Exception:  # noqa
+                continue
+            if dig(observe(twin, ver)) != mine or not (twin == obj) or hash(twin) != hash(obj):
+                raise CopyBehavesDifferently()
         return res
     if name == "hash":
         return hash(obj) == hash(obj.clean_vector())
+    if name == "internals":
+        # the public intermediate quantities (Internals.tla): pure functions of the object like every other accessor
+        if ver == "4":
+            return [obj.macroVector()] + [obj.m(b) for b in ("AV", "PR", "UI", "AC", "AT", "VC", "VI", "VA", "SC", "SI", "SA", "CR", "IR", "AR", "E")] + \
+                   [obj.get_value_description(b) for b in sorted(obj.metrics)]
+        if ver == "3":
+            return [str(getattr(obj, a)) for a in ("isc_base", "isc", "esc", "modified_isc_base", "modified_isc", "modified_esc")] + \
+                   [str(obj.get_value(b)) for b in sorted(obj.metrics)] + [obj.get_value_description(b) for b in sorted(obj.metrics)]
+        return [str(obj.impact_equation()), str(obj.adjusted_impact_equation()), str(obj.base_score_equation()), str(obj.base_score_equation(adjusted_impact=True)),
+                str(obj.temporal_score_equation()), str(obj.temporal_score_equation(adjusted_impact=True))] + \
+               [str(obj.get_value(b)) for b in sorted(obj.metrics)] + [obj.get_value_description(b) for b in sorted(obj.metrics)]
     if name == "mutate_json":
         d = obj.as_json()
         keys = list(d)
@@ -301,8 +326,15 @@ def stress(item):
             k = rnd.randrange(len(inputs))
             ver, s = inputs[k]
             try:
-                obj = CLS[ver](s)
-                mine.append((k, dig(observe(obj, ver)), "-"))
+                if ver == "text":                  # every kind of API call takes part, not only the constructors
+                    r_ = parse_cvss_from_text(s)
+                    mine.append((k, dig(sorted([type(r).__name__, r.vector, r.clean_vector()] for r in r_)), "-"))
+                elif ver.startswith("rh"):
+                    obj = CLS[ver[2:]].from_rh_vector(s)
+                    mine.append((k, dig(observe(obj, ver[2:])), "-"))
+                else:
+                    obj = CLS[ver](s)
+                    mine.append((k, dig(observe(obj, ver)), "-"))
             except Exception as e:  # noqa
                 mine.append((k, "raised", type(e).__name__))
         with lock:
@@ -315,7 +347,10 @@ def stress(item):
         t.join()
     g1 = globals_digest()
     distinct = sorted(set(res))
-    return [{"label": "new:%s:%s" % (item["inputs"][k][0], item["inputs"][k][1]), "res": d, "exc": x, "g": g1, "out": 0, "proj0": "-", "proj": "-"}
+    def lab(k):
+        v, s = item["inputs"][k]
+        return "text::%s" % s if v == "text" else ("fromrh:%s:%s" % (v[2:], s) if v.startswith("rh") else "new:%s:%s" % (v, s))
+    return [{"label": lab(k), "res": d, "exc": x, "g": g1, "out": 0, "proj0": "-", "proj": "-"}
             for k, d, x in distinct], g0, len(res)
 
 
